@@ -381,6 +381,7 @@ def reindex_mappings(common, present):
     ms.append(("onto-common", {v: common for v in (0, 1) if v != common}))
     ms.append(("common-onto-listed", {common: (1 if common != 1 else 2)}))
     ms.append(("rotate", {0: 1, 1: 2, 2: 0}))
+    ms.append(("empty", {}))  # an explicit mapping that lists nothing is the identity, not "no mapping given"
     return ms
 
 
